@@ -51,7 +51,11 @@ type serverInitCaller struct{}
 func (caller serverInitCaller) Call(s *slip.Scope, args slip.List, depth int) slip.Object {
 	obj := s.Get("self").(*flavors.Instance)
 	if 0 < len(args) {
-		args = args[0].(slip.List)
+		list, ok := args[0].(slip.List)
+		if !ok {
+			slip.TypePanic(s, depth, "initargs", args[0], "list")
+		}
+		args = list
 	}
 	server := http.Server{Handler: http.NewServeMux()}
 	obj.Any = &server
